@@ -55,7 +55,19 @@ def producer_facts(cx, dinit):
             if e.kind == 'store' and e.data.get('attr') == 'cells':
                 P = find_comp(e.data.get('value'))
                 if isinstance(P, Fresh) and P.kind == 'listcomp' and isinstance(P.detail, CompInfo):
-                    return [(t, it) for t, it, c in P.detail.gens], P.detail.elt, e.line, any(c for _, _, c in P.detail.gens)
+                    gens = [(t, it) for t, it, c in P.detail.gens]
+                    # one generator over itertools.product(A, B, C) with a tuple target is the three nested generators (the
+                    # rightmost factor varies fastest = innermost)
+                    if len(gens) == 1 and isinstance(gens[0][0], TupleT) and isinstance(strip_versions(gens[0][1]), App):
+                        pr = strip_versions(gens[0][1])
+                        fac = None
+                        if pr.fn == '.product' and pr.args[:1] == (Sym('itertools'),) and not pr.kw:
+                            fac = pr.args[1:]
+                        elif pr.fn == 'call' and pr.args[:1] == (Sym('itertools.product'),) and not pr.kw:
+                            fac = pr.args[1:]
+                        if fac is not None and len(fac) == len(gens[0][0].items):
+                            gens = list(zip(gens[0][0].items, fac))
+                    return gens, P.detail.elt, e.line, any(c for _, _, c in P.detail.gens)
                 if isinstance(P, Fresh) and P.kind in ('list', 'call:list') and not P.items:
                     apps = [a for a in p.events if a.kind == 'store' and a.data.get('store') == 'append'
                             and strip_versions(a.data.get('target')) == P]
